@@ -337,17 +337,21 @@ func (n *BaseNode) ReplaceChild(self, v1, insertee Node) {
 
 // InsertAfter implements Node.InsertAfter .
 func (n *BaseNode) InsertAfter(self, v1, insertee Node) {
+	if v1 == nil || v1.Parent() != self {
+		n.AppendChild(self, insertee)
+		return
+	}
 	n.InsertBefore(self, v1.NextSibling(), insertee)
 }
 
 // InsertBefore implements Node.InsertBefore .
 func (n *BaseNode) InsertBefore(self, v1, insertee Node) {
-	n.childCount++
-	if v1 == nil {
+	if v1 == nil || v1.Parent() != self {
 		n.AppendChild(self, insertee)
 		return
 	}
 	ensureIsolated(insertee)
+	n.childCount++
 	if v1.Parent() == self {
 		c := v1
 		prev := c.PreviousSibling()
